@@ -161,8 +161,10 @@ func c16SerModule(m *ast.Module) string {
 
 // ---------- child worker: one parse.NewParse per request ----------
 type c16Req struct {
-	ID    int `json:"id"`
-	Input B   `json:"input"`
+	ID       int          `json:"id"`
+	Input    B            `json:"input"`
+	Files    map[string]B `json:"files,omitempty"`    // further files of the scenario, relative to in.tars' directory
+	Includes []string     `json:"includes,omitempty"` // search path (-include), relative to that directory
 }
 type c16Resp struct {
 	ID    int    `json:"id"`
@@ -185,10 +187,29 @@ func c16AstDefect(m *ast.Module) string {
 	return ""
 }
 
-func c16ParseOnce(dir string, input []byte) (rs c16Resp) {
+func c16ParseOnce(dir string, rq c16Req) (rs c16Resp) {
+	input := []byte(rq.Input)
 	file := filepath.Join(dir, "in.tars")
 	if err := os.WriteFile(file, input, 0o644); err != nil {
 		return c16Resp{Class: "ioerr", Msg: err.Error()}
+	}
+	var extra []string
+	defer func() {
+		for _, f := range extra {
+			os.Remove(f)
+		}
+	}()
+	for name, b := range rq.Files {
+		f := filepath.Join(dir, name)
+		os.MkdirAll(filepath.Dir(f), 0o755)
+		if err := os.WriteFile(f, b, 0o644); err != nil {
+			return c16Resp{Class: "ioerr", Msg: err.Error()}
+		}
+		extra = append(extra, f)
+	}
+	opt := &options.Options{}
+	for _, inc := range rq.Includes {
+		opt.Includes = append(opt.Includes, filepath.Join(dir, inc))
 	}
 	defer func() {
 		if r := recover(); r != nil {
@@ -199,9 +220,9 @@ func c16ParseOnce(dir string, input []byte) (rs c16Resp) {
 			}
 		}
 	}()
-	tf := parse.NewParse(&options.Options{}, file, make([]string, 0))
+	tf := parse.NewParse(opt, file, make([]string, 0))
 	if len(tf.IncTarsFile) > 0 {
-		return c16Resp{Class: "multi"}
+		return c16Resp{Class: "multi", Ast: B(c16SerModule(&tf.Module)), Wf: c16AstDefect(&tf.Module)}
 	}
 	return c16Resp{Class: "ok", Ast: B(c16SerModule(&tf.Module)), Wf: c16AstDefect(&tf.Module)}
 }
@@ -228,7 +249,7 @@ func c16WorkerMain() {
 		fmt.Fprintf(out, "BEGIN %d\n", rq.ID)
 		out.Flush()
 		t0 := time.Now()
-		rs := c16ParseOnce(dir, rq.Input)
+		rs := c16ParseOnce(dir, rq)
 		rs.ID = rq.ID
 		rs.Us = time.Since(t0).Microseconds()
 		b, _ := json.Marshal(rs)
@@ -339,6 +360,15 @@ func c16Ask(w **c16Worker, base string, rq c16Req, capMs int) c16Resp {
 // c16ParseMany runs all inputs over nw child workers. A hang only counts if it reproduces in two further runs
 // (fresh worker, longer cap): the machine is shared.
 func c16ParseMany(base string, inputs [][]byte, nw int, capMs int) []c16Resp {
+	rqs := make([]c16Req, len(inputs))
+	for i := range inputs {
+		rqs[i] = c16Req{Input: inputs[i]}
+	}
+	return c16ParseReqs(base, rqs, nw, capMs)
+}
+
+func c16ParseReqs(base string, rqs []c16Req, nw int, capMs int) []c16Resp {
+	inputs := rqs
 	out := make([]c16Resp, len(inputs))
 	var wg sync.WaitGroup
 	ch := make(chan int)
@@ -351,14 +381,16 @@ func c16ParseMany(base string, inputs [][]byte, nw int, capMs int) []c16Resp {
 			w := c16StartWorker(base)
 			defer func() { w.stop() }()
 			for i := range ch {
-				rs := c16Ask(&w, base, c16Req{ID: i, Input: inputs[i]}, capMs)
+				rq := inputs[i]
+				rq.ID = i
+				rs := c16Ask(&w, base, rq, capMs)
 				if rs.Class == "hang" {
 					hmu.Lock()
 					skip := confirmed >= 2 // enough confirmed hangs: the rest are reported as observed, unconfirmed ones would only cost time
 					hmu.Unlock()
 					if !skip {
 						for r := 0; r < 2 && rs.Class == "hang"; r++ {
-							rs = c16Ask(&w, base, c16Req{ID: i, Input: inputs[i]}, capMs*3)
+							rs = c16Ask(&w, base, rq, capMs*3)
 						}
 						if rs.Class == "hang" {
 							hmu.Lock()
@@ -589,6 +621,7 @@ func c16Main(a Args) {
 		res.CaseFiles = append(res.CaseFiles, name)
 	}
 	if a.Replay == "" {
+		c16Scenarios(base, res)
 		c16BackEnd(a, rng, res, cases, nil)
 	} else if len(cases) > 0 {
 		c16BackEnd(a, rng, res, cases, &cases[0])
@@ -608,4 +641,74 @@ func c16Hex(b []byte) string { return hex.EncodeToString(b) }
 func init() {
 	props["C16"] = c16Main
 	props["c16-parse-worker"] = func(a Args) { c16WorkerMain() }
+}
+
+// ---------- several files: includes, search path, circular references, several modules in one file ----------
+// Hand-written scenarios with the outcome each must have (the model covers one file; these are direct monitors).
+type c16Scenario struct {
+	Name     string
+	Main     string
+	Files    map[string]string
+	Includes []string
+	Class    string   // ok | multi | err
+	Has      []string // fragments the canonical AST of the file's own module must contain
+}
+
+var c16ScenarioList = []c16Scenario{
+	{Name: "circular-include", Main: `#include "b.tars" module A { struct S { 0 require int x; }; };`, Files: map[string]string{"b.tars": `#include "in.tars" module B { };`}, Class: "err"},
+	{Name: "self-include", Main: `#include "in.tars" module A { };`, Class: "err"},
+	{Name: "circular-include-of-three", Main: `#include "b.tars" module A { };`, Files: map[string]string{"b.tars": `#include "c.tars" module B { };`, "c.tars": `#include "b.tars" module C { };`}, Class: "err"},
+	{Name: "missing-include", Main: `#include "nope.tars" module A { };`, Class: "err"},
+	{Name: "include-same-directory", Main: `#include "dep.tars" module M { struct S { 0 require D::T t; 1 optional D::E e = B; 2 optional vector<D::T> v; 3 optional D::E ea[2]; }; interface I { D::T f(D::E e, out D::T o); }; };`,
+		Files: map[string]string{"dep.tars": `module D { enum E { A, B }; struct T { 0 require int x; }; };`}, Class: "multi",
+		Has: []string{"n4:D::TS", "n4:D::EE", "5:D.E_B", "vn4:D::TS", "an4:D::EE2;"}},
+	{Name: "include-through-search-path", Main: `#include "dep.tars" module M { struct S { 0 require D::T t; }; };`,
+		Files: map[string]string{"inc/dep.tars": `module D { struct T { 0 require int x; }; };`}, Includes: []string{"other", "inc"}, Class: "multi", Has: []string{"n4:D::TS"}},
+	{Name: "include-not-on-search-path", Main: `#include "dep.tars" module M { struct S { 0 require D::T t; }; };`,
+		Files: map[string]string{"inc/dep.tars": `module D { struct T { 0 require int x; }; };`}, Includes: []string{"other"}, Class: "err"},
+	{Name: "diamond-include", Main: `#include "b.tars" #include "c.tars" module M { struct S { 0 require D::T t; 1 require B::U u; }; };`,
+		Files: map[string]string{"b.tars": `#include "d.tars" module B { struct U { 0 require D::T t; }; };`, "c.tars": `#include "d.tars" module C { };`, "d.tars": `module D { struct T { 0 require int x; }; };`},
+		Class: "multi", Has: []string{"n4:D::TS", "n4:B::US"}},
+	{Name: "type-of-included-file-undefined", Main: `#include "dep.tars" module M { struct S { 0 require D::Nope t; }; };`, Files: map[string]string{"dep.tars": `module D { struct T { 0 require int x; }; };`}, Class: "err"},
+	{Name: "enum-default-conflict-in-included-file", Main: `#include "dep.tars" module M { struct S { 0 optional D::E e = A; }; };`, Files: map[string]string{"dep.tars": `module D { enum E { A }; enum F { A }; };`}, Class: "err"},
+	{Name: "second-module-uses-first", Main: `module A { struct S { 0 require int x; }; }; module B { struct T { 0 require A::S s; }; };`, Class: "multi", Has: []string{"1:A[1:S["}},
+	{Name: "second-module-undefined-type", Main: `module A { }; module B { struct T { 0 require Nope s; }; };`, Class: "err"},
+	{Name: "second-module-redefinition", Main: `module A { }; module B { struct T { 0 require int a; }; struct T { 0 require int b; }; };`, Class: "err"},
+	{Name: "same-module-three-times", Main: `module A { struct S { 0 require int x; }; }; module A { struct T { 0 require int y; }; }; module A { struct U { 0 require T t; }; };`, Class: "multi", Has: []string{"1:A[1:S["}},
+	{Name: "include-in-the-middle", Main: `module A { struct S { 0 require int x; }; }; #include "dep.tars"`, Files: map[string]string{"dep.tars": `module D { };`}, Class: "multi"},
+}
+
+func c16Scenarios(base string, res *Result) {
+	rqs := make([]c16Req, len(c16ScenarioList))
+	for i, sc := range c16ScenarioList {
+		rqs[i] = c16Req{Input: B(sc.Main), Includes: sc.Includes}
+		if len(sc.Files) > 0 {
+			rqs[i].Files = map[string]B{}
+			for k, v := range sc.Files {
+				rqs[i].Files[k] = B(v)
+			}
+		}
+	}
+	rs := c16ParseReqs(base, rqs, 3, 4000)
+	hist := map[string]int{}
+	for i, sc := range c16ScenarioList {
+		got := rs[i].Class
+		if got == "fatal" {
+			got = "err"
+		}
+		hist[got]++
+		rep := c16Case{Kind: "scenario:" + sc.Name, Input: B(sc.Main), Text: sc.Main, Class: got, Msg: rs[i].Msg}
+		if got != sc.Class {
+			res.Failures = append(res.Failures, Failure{Sig: "tars2go/parse/scenario/" + sc.Name, Desc: fmt.Sprintf("files %q (+ %d more): expected outcome %s, observed %s %s", sc.Main, len(sc.Files), sc.Class, got, c16Trunc(rs[i].Msg, 200)), Replay: rep})
+			continue
+		}
+		for _, h := range sc.Has {
+			if !strings.Contains(string(rs[i].Ast), h) {
+				res.Failures = append(res.Failures, Failure{Sig: "tars2go/parse/scenario/" + sc.Name, Desc: fmt.Sprintf("files %q (+ %d more): the analysed AST %q lacks %q", sc.Main, len(sc.Files), c16Trunc(string(rs[i].Ast), 400), h), Replay: rep})
+				break
+			}
+		}
+	}
+	res.Stats["scenarios"] = hist
+	res.Evaluations += len(c16ScenarioList)
 }
